@@ -1,9 +1,12 @@
 """C12: the API JSON is a complete, internally consistent inventory."""
+import corpus
 import oracles
 from props.common import corpus_check
 
 
 def run(ctx):
     r = corpus_check(ctx, "C12", oracles.c12, use_l1=False)
-    r["disagreements"] = []   # the JSON is produced by the analyzer; the back-end correspondence does not concern it
+    # the JSON is produced by the analyzer: the correspondence that concerns it is the analyzer model (API object, flat
+    # dictionaries, JSON value); the back-end (stub text) correspondence does not
+    r["disagreements"] = corpus.front_disagreements(r["cases"], "C12")
     return r
